@@ -709,6 +709,15 @@ def row_sweep(ctx):
             except Exception:
                 _vals[kind] = 0   # bit-mask kinds: no bit set
         return _vals[kind]
+    from .kani_masks import mask_decls
+    _, masks_lifted = lift()
+    decls = {T: dict(c) for T, c in mask_decls()}
+    masks_with_params = {}
+    for K, groups in masks_lifted.items():
+        for flags, ops in groups:
+            if ops:
+                for fl in flags:
+                    masks_with_params.setdefault(K, []).append((decls[K][fl], len(ops)))
     cases = []
     for line in p.stdout.splitlines():
         parts = line.split()
@@ -750,6 +759,19 @@ def row_sweep(ctx):
         full = a + flat(opt)
         mk = lambda ws: seeds.to_hex_bytes(seeds.HEADER + [((len(ws) + 1) << 16) | num] + ws)
         cases.append(("accept", name, "required operands only", mk(a)))
+        # a parameterised mask operand with one parameter-carrying flag set, followed by that flag's parameters
+        for pos, (k, q) in enumerate(kinds):
+            if k in masks_with_params and q in ("One", "ZeroOrOne"):
+                for bit, nparams in masks_with_params[k][:6]:
+                    ws = []
+                    for k2, q2 in kinds[:pos]:
+                        # every operand before the mask is present (optional ones too: an optional operand may only be a trailing run)
+                        ws += (words(k2) or [])
+                    ws += [bit] + [40 + j for j in range(nparams)]
+                    for k2, q2 in kinds[pos + 1:]:
+                        if q2 == "One":
+                            ws += (words(k2) or [])
+                    cases.append(("accept", name, "%s flag %#x with its %d parameter(s)" % (k, bit, nparams), mk(ws)))
         if opt:
             cases.append(("accept", name, "all optional operands present", mk(full)))
         nonres = [(k, w) for k, w in req if k not in ("IdResultType", "IdResult")]
@@ -825,6 +847,9 @@ def witness(failure, ctx):
     # C02/C01: a string followed by further operands whose bytes are not UTF-8 (ids 128, 255, 0xffff..): accepted, same operands
     for ids in ([128], [200, 255, 0xffff], [0xfffefdfc]):
         cases.append(("c01-string-then-%x" % ids[0], seeds.to_hex_bytes(seeds.HEADER + seeds.inst(15, 4, 4, *(seeds.s("main") + [9] + ids)))))
+    # C10: solely by the declarations that PRECEDE the literal: unknown (one word), then declared 64-bit, then two words
+    cases.append(("c10-declared-between", seeds.to_hex_bytes(seeds.HEADER + seeds.inst(43, 1, 2, 7) + seeds.inst(21, 1, 64, 0) + seeds.inst(43, 1, 3, 5, 6))))
+    cases.append(("c10-declared-between-float", seeds.to_hex_bytes(seeds.HEADER + seeds.inst(50, 1, 2, 7) + seeds.inst(22, 1, 64) + seeds.inst(50, 1, 3, 5, 6) + seeds.inst(43, 1, 4, 8, 9))))
     # C10: never on earlier parses: a parse that fails after declaring a 64-bit type, then a module that uses the same id undeclared
     cases.append(("leak-a", seeds.to_hex_bytes(seeds.HEADER + seeds.inst(21, 1, 64, 0) + seeds.inst(22, 3, 128) + [0x00000000])))
     cases.append(("c10-after-failed-parse", seeds.to_hex_bytes(seeds.HEADER + seeds.inst(43, 1, 2, 42))))
